@@ -32,6 +32,8 @@ PROPS = {
                  "PKCS7 Verify/HasCertificate; Authenticode.Verify; Hash with SHA-1/SHA-256/SHA-512; a database with a hand-assembled list around a PEM certificate; signed updates with empty, 5-byte and 40-byte payloads. "
                  "Buffers handed to Marshal are overwritten and reused by the harness afterwards; results the caller keeps are compared with a copy taken when they were returned; every operation kind is first called on a fresh object (baseline) "
                  "and once on the object under test before the snapshot is taken. "
+                 "Images may be signed by another tool first and may end in a non-Authenticode entry; bystander objects (a twin, a different image) must be unaffected; one interleaved run in three starts on a cold object; "
+                 "a client that blocks in a primitive the scheduler does not own hands the processor over (deadlock is a violation), goroutines started by the code under test are not scheduled. "
                  "Non-trivial: mode 1 an operation repeated at least twice; mode 2 at least two clients and one context switch; mode 3 at least two clients. Distinct = distinct event-log hash; "
                  "distinct_schedules = distinct effective context-switch lists."),
         "exhaustive": lambda tier: False,
@@ -50,7 +52,8 @@ PROPS = {
         "level_note": ("Trusted: refpe (hand-written header walker + hash steps 1-15 with the literal SUM_OF_BYTES_HASHED rule, cross-checked against the four digests pinned in the repository's tests), "
                        "refcms, pegen. Content of inter-entry padding and the position of nothing else is constrained. Verify for a non-signer may return false with or without an error."),
         "rule": ("Per run: image = pegen layout (11 of 12) or fixture; instant; key subset incl. the issuer+serial collision pair; ops Sign(k) / Reparse / ReparseViaOpen / Verify(k) / Hash / Signatures. "
-                 "Non-trivial: at least one Sign followed by a reparse. Distinct = distinct event-log hash; model states = distinct (signer sequence, length mod 8)."),
+                 "One run in seven starts from an image another tool signed (refCMSForeign: extra authenticated attributes, foreign name encodings, padding counted in dwLength or non-zero filler); one in five keeps a second parsed image alive beside the history and re-checks it after every step; "
+                 "one layout in five has a boundary of the hashed ranges on a round offset (512 B - 64 KiB). Non-trivial: at least one Sign followed by a reparse. Distinct = distinct event-log hash; model states = distinct (signer sequence, length mod 8)."),
         "exhaustive": lambda tier: False,
         "components": {"real": REAL, "stub": "synctest fake clock, simreader as image medium, fixed key pool"},
         "assumptions": COMMON_ASSUMPTIONS + ["RSA PKCS#1 v1.5 signing in Go is deterministic, so produced bytes are a function of the seed"],
@@ -92,7 +95,8 @@ PROPS = {
         "level_note": ("Trusted: the abstract model (ordered entries), refesl. The position of an appended entry, which of two equal-header lists receives it, removal/query by PEM form and "
                        "Exists() across split lists are accepted either way because the statement does not fix them. A fresh valid append that fails without changing anything is counted, not flagged."),
         "rule": ("Per run a swarm-selected subset of types/owners/operation kinds; start from empty, a repository fixture stream or a generated stream; 1-40 operations "
-                 "(Append, AppendSignature, Remove, RemoveSignature, BytesExists, SigDataExists, Exists, AppendList, AppendDatabase with the source kept alive, Restart through a caller buffer that is reused; "
+                 "(Append, AppendSignature, Remove, RemoveSignature, BytesExists, SigDataExists, Exists, AppendList, AppendDatabase with the source kept alive, Restart through a caller buffer that is reused or into the live database, "
+                 "Swap = the history continues on a database that was merged into this one; one run in fifteen is a long grow-and-shrink history of one list of 10-40 entries; "
                  "lists built through the list-level API incl. removes, list restart and lists with a SignatureHeader). "
                  "Non-trivial: at least two successful mutations and a non-empty view at some step. Distinct = distinct event-log hash; model states = distinct structural snapshots of the database."),
         "exhaustive": lambda tier: False,
@@ -154,6 +158,7 @@ PROPS = {
                  "typed accessors and the legacy efi.Get* helpers, parse/hash/sign/verify image, a six-step signing history and Authenticode.Verify on fixtures and seeded generated images) are first run fault-free with "
                  "counting seams to record the dependency-call sequence; then one case per (position k, fault kind[, byte count]) for "
                  "EVERY position and every kind legal for that call (err; partial_err/short_nil with 1, 2, len-1 bytes; err_full = all bytes taken and an error; early_eof for file reads), plus "
+                 "the same failures with the identities an operating system gives them (*PathError around ENOENT / EINTR; io.ErrUnexpectedEOF and EIO for the image reader; temporary errors of the signer), "
                  "seeded multi-fault and persistent (device gone) sequences. A case is non-trivial when an injected fault actually fired "
                  "inside the operation; distinct = distinct (instance, fired fault list)."),
         "exhaustive": lambda tier: True,
